@@ -1,20 +1,27 @@
 """
 C15: grid='inf' constraints guarantee satisfaction between grid points.
 
-rockit's part of the argument, under contract (real SamplingMethod.add_inf_constraints on the
-casadi model, with the spline algebra of rockit/splines/spline.py and casadi_helpers.reinterpret_expr
-replaced by ASSUMED contracts -- A-BSPLINE-ALG: operations on BSpline objects return the exact
-Bernstein coefficients of the result):
-  * the coefficients handed to the spline algebra for every state are the Bernstein coefficients, on the
-    step normalised to [0,1], of the integration scheme's own polynomial for THIS integrator step
-    (coefficient i scaled by h^i with h the step's own length), obtained with the exact
-    monomial-to-Bernstein matrix;
-  * inf_der operands are the derivative spline of that state times 1/h with the same h; inf_inert
-    operands are passed through; the operands are listed in the order of the symbols they replace;
-  * one call per integrator step (k, l) of every control interval, evaluated with interval-k data.
-Lemmas discharged by z3 (pure mathematics, unbounded): the degree-4 Bernstein expansion reproduces the
-polynomial, the Bernstein basis is non-negative on [0,1] and sums to one, hence max_i b_i bounds the
-polynomial on the whole step; the derivative coefficients 4*(b[i+1]-b[i]) expand the derivative.
+The argument is modular; every link is an obligation on the REAL code (on the casadi model):
+  (1) SamplingMethod.add_inf_constraints  [inf_check]: with the spline classes and reinterpret_expr replaced by their
+      CONTRACTS (SplineStub / reinterpret_stub below), the coefficients handed over for every state are the Bernstein
+      coefficients, on the step normalised to [0,1], of the integration scheme's own polynomial for THIS integrator
+      step (coefficient i scaled by h^i with h the step's own length; exact monomial-to-Bernstein matrix); inf_der
+      operands are the derivative spline of that state times 1/h with the same h; inf_inert operands are passed
+      through; operands are listed in the order of the symbols they replace; one call per integrator step (k, l) with
+      interval-k data.  Exact equalities, symbolic horizon / grids.
+  (2) the contracts used in (1) are themselves discharged on the real callee code:
+      * rockit/splines/spline.py (BSpline / BSplineBasis / Basis) [algebra_op, algebra_cmp]: +, -, *, **, unary -,
+        scalar and symbol operands, derivative, <=, >=, <, > on Bernstein-form operands with SYMBOLIC coefficients
+        return the Bernstein form, of the right degree, of the exact result polynomial.  The basis transformations are
+        floating-point linear solves, so the identity is decided with a tolerance of 1e-9 on every coefficient of the
+        difference in the Bernstein basis (A-FLOAT) -- for all coefficient values, degrees enumerated (bounded).
+      * casadi_helpers.reinterpret_expr [reinterpret_contract]: for the listed constraint shapes the rows returned are
+        the Bernstein coefficients of rhs - lhs of the user's constraint on the operand polynomials (instruction view of
+        casadi.Function: assumed dependency contract A-CASADI-INSTR; the native replay uses CasADi's own).
+  (3) Lemmas discharged by z3 (pure mathematics, unbounded): the degree-4 Bernstein expansion reproduces the
+      polynomial, the Bernstein basis is non-negative on [0,1] and sums to one, hence max_i b_i bounds the polynomial
+      on the whole step; the derivative coefficients 4*(b[i+1]-b[i]) expand the derivative.
+Not covered: vector-valued states inside grid='inf' constraints (coefficient matrices), degrees above those listed.
 """
 import itertools
 from math import comb
@@ -254,6 +261,45 @@ def algebra_cmp(opname, p, q):
     c.prove(base + ":strictness", r._op == ("lt" if opname in ("__lt__", "__gt__") else "le"))
 
 
+from .shapes import REINTERPRET_SHAPES
+
+
+def reinterpret_contract(shape):
+    """the REAL casadi_helpers.reinterpret_expr with REAL BSpline operands (symbolic Bernstein coefficients): the
+    comparison it returns has one row per coefficient of a common Bernstein basis, and (hi - lo) are the Bernstein
+    coefficients of rhs - lhs of the user's constraint with every replaced symbol read as its operand polynomial.
+    Together with the convex-hull lemma: rows hold  =>  the constraint holds on the whole step."""
+    from rockit.casadi_helpers import reinterpret_expr
+    c = ctx()
+    s = z3.Real("s")
+    X0, X1, D0, W = ca.MX.sym("X0"), ca.MX.sym("X1"), ca.MX.sym("D0"), ca.MX.sym("W")
+    a, ca_ = _sym_spline("a", 4)
+    b, cb = _sym_spline("b", 4)
+    da, cd = _sym_spline("d", 3)
+    w = ca.MX.sym("w")
+    expr = REINTERPRET_SHAPES[shape](X0, X1, D0, W)
+    base = "casadi_helpers:reinterpret_expr:ensures[%s]" % shape
+    try:
+        r = reinterpret_expr(expr, [X0, X1, D0, W], [a, b, da, w])
+    except Exception as e:
+        c.fail(base + ":no-exception", "%s: %s" % (type(e).__name__, str(e)[:200]))
+        return
+    if r is None or not isinstance(r, ca.Mat) or getattr(r, "_deps", None) is None:
+        c.fail(base + ":result-is-a-coefficient-wise-comparison", "got %r" % (type(r).__name__,))
+        return
+    lo, hi = ca.MX(r._deps[0]), ca.MX(r._deps[1])
+    n = max(lo.numel(), hi.numel())
+    lo = ca.repmat(lo, n, 1) if lo.numel() == 1 else lo
+    hi = ca.repmat(hi, n, 1) if hi.numel() == 1 else hi
+    d = n - 1
+    c.ok(base + ":result-is-a-coefficient-wise-comparison", detail="%d rows" % n, backend="z3")
+    ulo, uhi = ca.MX(expr._deps[0]), ca.MX(expr._deps[1])
+    polys = [(ca.tz(X0.e[0]), bern_poly(ca_, 4, s)), (ca.tz(X1.e[0]), bern_poly(cb, 4, s)), (ca.tz(D0.e[0]), bern_poly(cd, 3, s)), (ca.tz(W.e[0]), ca.tz(w.e[0]))]
+    want = z3.substitute(ca.tz((uhi - ulo).e[0]), *polys)
+    nlp.prove_close(base + ":rows-are-bernstein-coefficients-of-rhs-minus-lhs", ca.MX._raw(1, 1, [bern_poly(hi - lo, d, s)]), ca.MX._raw(1, 1, [want]), bernstein=(s, d))
+    c.prove(base + ":strictness-preserved", r._op == expr._op)
+
+
 def algebra_tasks(tier):
     out = []
     D = range(1, 9) if tier == "thorough" else (1, 2, 3, 4, 8)
@@ -341,6 +387,9 @@ def tasks(tier):
                 out.append(Task(inst, lambda kw=kw, inst=inst: inf_check(kw, inst), kind="bounded", bound=dict(method=meth, N=N, M=M, grid=g, T=list(Tk)),
                                 replay=dict(harness="inf_probe", method=meth, N=N, M=M, grid=g)))
     out.extend(algebra_tasks(tier))
+    for shape in REINTERPRET_SHAPES:
+        out.append(Task("C15/reinterpret/" + shape, lambda shape=shape: reinterpret_contract(shape), kind="bounded", replay=dict(harness="reinterpret_probe", shape=shape), functions=["casadi_helpers:reinterpret_expr", "splines.spline:BSpline"],
+                        bound=dict(shape=shape, operands="degree-4 / degree-3 Bernstein splines with symbolic coefficients", tolerance=1e-9)))
     out.append(Task("C15/rejected/expl_euler", lambda: other_degrees_rejected("MS-expl_euler", dict(method="MS", intg="expl_euler")), kind="bounded", bound=dict(scheme="expl_euler")))
     out.append(Task("C15/rejected/DC-degree-2", lambda: other_degrees_rejected("DC-degree-2", dict(method="DC", degree=2)), kind="bounded", bound=dict(scheme="collocation degree 2")))
     return out
